@@ -332,15 +332,6 @@ func rewrite(rel string, src []byte, c *census) ([]byte, bool, error) {
 				usedRT = true
 				c.Select++
 				handled[s] = true
-			default:
-				if u, ok := recvOf(inner); ok && inner == st {
-					ch := text(u.X)
-					add(off(st.Pos()), off(st.Pos()), "verifrt.BeforeRecv("+ch+"); ")
-					add(off(st.End()), off(st.End()), "; verifrt.AfterRecv("+ch+")")
-					usedRT = true
-					c.Recv++
-					handled[u] = true
-				}
 			}
 		}
 	}
@@ -355,6 +346,40 @@ func rewrite(rel string, src []byte, c *census) ([]byte, bool, error) {
 		}
 		return true
 	})
+	// receive expressions anywhere else: `<-ch` -> verifrt.Recv(ch); `v, ok := <-ch` -> verifrt.Recv2(ch)
+	commaOk := map[ast.Node]bool{}
+	ast.Inspect(f, func(n ast.Node) bool {
+		switch x := n.(type) {
+		case *ast.AssignStmt:
+			if len(x.Lhs) == 2 && len(x.Rhs) == 1 {
+				if u, ok := x.Rhs[0].(*ast.UnaryExpr); ok && u.Op == token.ARROW {
+					commaOk[u] = true
+				}
+			}
+		case *ast.ValueSpec:
+			if len(x.Names) == 2 && len(x.Values) == 1 {
+				if u, ok := x.Values[0].(*ast.UnaryExpr); ok && u.Op == token.ARROW {
+					commaOk[u] = true
+				}
+			}
+		}
+		return true
+	})
+	ast.Inspect(f, func(n ast.Node) bool {
+		if u, ok := n.(*ast.UnaryExpr); ok && u.Op == token.ARROW && !handled[u] {
+			fn := "verifrt.Recv("
+			if commaOk[u] {
+				fn = "verifrt.Recv2("
+			}
+			add(off(u.Pos()), off(u.X.Pos()), fn)
+			add(off(u.End()), off(u.End()), ")")
+			usedRT = true
+			c.Recv++
+			handled[u] = true
+		}
+		return true
+	})
+
 	// census of what was left alone
 	ast.Inspect(f, func(n ast.Node) bool {
 		switch x := n.(type) {
